@@ -352,12 +352,17 @@ class ClientWebSocketResponse(Generic[_DecodeText]):
                 # The peer's CLOSE was already received (its status code may
                 # be absent, i.e. 0) or the connection is already lost.
                 if self._close_code is not None:
+                    # Closing the response aborts a transport that still has
+                    # unsent bytes: let our CLOSE (queued behind older frames)
+                    # leave the write buffer first, within the same deadline.
+                    await self._writer.flush()
                     self._response.close()
                     return True
                 while True:
                     msg = await self._reader.read()
                     if msg.type is WSMsgType.CLOSE:
                         self._close_code = msg.data
+                        await self._writer.flush()
                         self._response.close()
                         return True
         except asyncio.CancelledError:
